@@ -67,8 +67,9 @@ func h20sInt(max int) {
 		vxAssert("insert-B-unchanged", B.Contains(x) == inB)
 	case 1: // Delete
 		y := int(vxInt64())
-		A.Delete(y)
-		vxAssert("delete-membership", A.Contains(x) == vxAnd(inA, x != y))
+		z := int(vxInt64())
+		A.Delete(y, z, y) // several arguments, possibly equal to each other
+		vxAssert("delete-membership", A.Contains(x) == vxAnd(inA, vxAnd(x != y, x != z)))
 		checkUnchanged = false
 		vxAssert("delete-B-unchanged", B.Contains(x) == inB)
 	case 2:
